@@ -233,7 +233,7 @@ def r_sibling(c):
         r = m.resolve_method(TOIL, mn)
         if r is None:
             raise AnalysisError(f"anchor vanished: {mn}")
-        fd = m.inlined(r[1])
+        fd = m.counters(m.inlined(r[1]))    # (an itertools.count is the integer it counts)
         loops = []
         for l in ast.walk(fd):
             if not isinstance(l, ast.For):
@@ -268,7 +268,8 @@ def r_sibling(c):
             # canonical text: cases and events, locals alpha-normalised
             # (falling off the end of the loop body and `continue` are the same)
             rows = sorted((sorted(f"{k}={v}" for k, v in cs),
-                           ev[:-1] if ev and ev[-1] == ("exit", "continue") else ev)
+                           symrun.read_then_advance(
+                               ev[:-1] if ev and ev[-1] == ("exit", "continue") else ev))
                           for cs, ev in tab.items())
             # locals of the rule renamed in order of first occurrence
             import re
